@@ -136,13 +136,16 @@ fn geometry_content(kind: usize, w: usize, h: usize, seed: u64) -> Vec<u8> {
 /// at every position relative to the 8-sample groups (inside one group, across groups, touching
 /// the borders). Three kinds of detail (gentle step, noise, extremes), three strengths.
 fn localized_sweep(rep: &Report, prop: &str, seed: u64) -> u64 {
-    let n = 40usize;
+    // (neither dimension is a multiple of eight: the columns / rows behind the last whole group of
+    // eight - the part a vector kernel leaves to its scalar tail - are spans of their own, so detail
+    // confined to the tail next to a flat, mirror-symmetric vector part is among the images)
+    let n = 43usize;
     let spans: Vec<(usize, usize)> = (0..n).flat_map(|a| (a..n).map(move |b| (a, b))).collect();
     spans.par_iter().for_each(|&(a, b)| {
         let mut rng = Lcg::new(seed ^ (a as u64 * 4099 + b as u64));
         for kind in 0..3usize {
             for transposed in [false, true] {
-                let (w, h) = if transposed { (18usize, n) } else { (n, 18usize) };
+                let (w, h) = if transposed { (21usize, n) } else { (n, 21usize) };
                 let mut img = vec![96u8; w * h];
                 for y in 0..h {
                     for x in 0..w {
